@@ -1563,13 +1563,14 @@ pub fn ntt120_vec_znx_big_add_normal_ref<R, BE>(
     R: VecZnxBigToMut<BE>,
 {
     let mut res: VecZnxBig<&mut [u8], BE> = res.to_mut();
-    assert!(
-        (noise_infos.bound.log2().ceil() as i64) < 64,
-        "invalid bound: ceil(log2(bound))={} > 63",
-        noise_infos.bound.log2().ceil() as i64
-    );
-
     let (limb, scale) = noise_infos.target_limb_and_scale(base2k);
+
+    // The samples are truncated at `bound * scale` and stored as i64: that is the magnitude that has to fit.
+    assert!(
+        ((noise_infos.bound * scale).log2().ceil() as i64) < 64,
+        "invalid bound: ceil(log2(bound * scale))={} > 63",
+        ((noise_infos.bound * scale).log2().ceil() as i64)
+    );
     let scaled_sigma = noise_infos.sigma * scale;
     let scaled_bound = noise_infos.bound * scale;
 
